@@ -21,7 +21,7 @@ pub fn submit_batch_via_io_uring_h(col: &str, sys: &mut Sys, g: &mut GlobalsW, G
     ensures
         same_shape(*old(sys), *final(sys)),
         *final(revert_info) == *old(revert_info),
-        ret is Ok ==> *final(cur_offset) == planning_offset && written_upto(write_plan@, batch@, col@, *final(sys), write_plan@.len() as int),
+        ret is Ok ==> *final(cur_offset) == planning_offset && written_upto(write_plan@, batch@, col@, *final(sys), write_plan@.len() as int) && plan_synced(write_plan@, *final(sys), write_plan@.len() as int),
         ret is Err ==> *final(cur_offset) == old(revert_info).original_offset,
         ret matches Err(e) ==> (uring_init_failure(e) ==> *final(sys) == *old(sys)),
         ret matches Err(e) ==> (!uring_init_failure(e) ==> headers_zeroed(write_plan@, *final(sys), write_plan@.len() as int)),
